@@ -218,6 +218,121 @@ def c10_transparent(out):
     return obl
 
 
+def c10_chain(out, nmax=3):
+    """build_debug_expr emits, for every configuration of 0..3 fields, exactly the builder chain that the standard derive's helper functions run:
+    `f.debug_struct|debug_tuple(name)` + `.field([name,] &expr)` for each field that is not ignored, in order, + `.finish()`; with one transparent field
+    `::core::fmt::Debug::fmt(expr, f)`. One z3 query per path (ignore / transparent flags, field count and named-ness symbolic). The obligation is about the
+    tokens the macro emits, so it holds for every formatter state - including the alternate flag, which CBMC cannot reach. A failing configuration is
+    confirmed (or not) by running the real expansion natively against a std-derived twin on alternate and plain format specs."""
+    import itertools
+    from .mir import tokens as tk
+    eng = engine()
+    obl = e3.Obligations("C10")
+    ex = eng.executor(slice_bound=nmax, opaque_local={"FieldEntry::push_bounds_to", "FieldEntry::member", "WhereClauseBuilder::push_bounds_for_field"})
+    ex.trace = _Everything()
+    ex.unique_streams = True
+    fn = eng.find("build_debug_expr")
+    n = ex.ivar("len(fields)", 0, nmax)
+    named = ex.ivar("disc(fields_source)", 0, 2) == 0
+    tr = [ex.ivar("disc(fields.[%d].hattrs.debug.transparent.span)" % i, 0, 1) == 1 for i in range(nmax)]
+    ig = [ex.ivar("disc(fields.[%d].hattrs.debug.ignore.span)" % i, 0, 1) == 1 for i in range(nmax)]
+    # syn invariant: the fields of `Fields::Named` have identifiers, those of `Fields::Unnamed` have none; a unit shape has no fields
+    pre = [z3.Implies(n > i, (ex.ivar("disc(fields.[%d].field.ident)" % i, 0, 1) == 1) == named) for i in range(nmax)]
+    pre.append(z3.Implies(ex.ivar("disc(fields_source)", 0, 2) == 2, n == 0))
+    res = ex.run(fn, eng.args_for(fn), pre=pre)
+    obl.note_paths("build_debug_expr[chain]", res, ex)
+    for r in [r for r in res if r.kind == "stuck"][:1]:
+        out.inconclusive.append("fn=build_debug_expr[chain] reason=%s" % (r.value,))
+
+    def reference(k, nm, trs, igs):
+        t_idx = [i for i in range(k) if trs[i]]
+        if len(t_idx) >= 2:
+            return None  # refused (decided by c10_transparent)
+        e = lambda i: "<opaque:impl Fn(&FieldEntry) -::call(sym:to_expr,agg:tuple(sym:fields.[%d]))>" % i
+        if t_idx:
+            return ":: core :: fmt :: Debug :: fmt ( %s , f )" % e(t_idx[0])
+        toks = ["f", ".", "debug_struct" if nm else "debug_tuple", "(", "<opaque:ToString::Ident::to_string(opaque:IdentExt::Ident::unraw(sym:ident))>", ")"]
+        for i in range(k):
+            if igs[i]:
+                continue
+            toks += [".", "field", "("]
+            if nm:
+                toks += ["<opaque:ToString::Ident::to_string(opaque:IdentExt::Ident::unraw(sym:fields.[%d].field.ident.<Some>.0))>" % i, ","]
+            toks += ["&", e(i), ")"]
+        toks += [".", "finish", "(", ")"]
+        return " ".join(toks)
+
+    combos = []
+    for k in range(nmax + 1):
+        for nm in (True, False):
+            for trs in itertools.product((False, True), repeat=k):
+                for igs in itertools.product((False, True), repeat=k):
+                    combos.append((k, nm, trs, igs, reference(k, nm, trs, igs)))
+
+    def formula(k, nm, trs, igs):
+        cs = [n == k, named if nm else z3.Not(named)]
+        for i in range(k):
+            cs.append(tr[i] if trs[i] else z3.Not(tr[i]))
+            cs.append(ig[i] if igs[i] else z3.Not(ig[i]))
+        return z3.And(cs)
+
+    unknown = None
+    for r in res:
+        if r.kind != "return" or is_err(r):
+            continue
+        try:
+            streams = tk.render(r.events)
+        except tk.Unknown as e:
+            unknown = str(e)
+            continue
+        from .mir.streams import sid
+        ret = sid(ex.summ(mx.State(), r.value))
+        got = tk.text(streams.get(ret, [])) if ret else None
+        if got is None:
+            unknown = "the returned value is not a stream the executor followed"
+            continue
+        good = [formula(k, nm, trs, igs) for (k, nm, trs, igs, ref) in combos if ref is not None and "".join(ref.split()) == "".join(got.split())]
+        refused = [formula(k, nm, trs, igs) for (k, nm, trs, igs, ref) in combos if ref is None]
+        obl.check_unsat(ex, "debug-chain", list(pre) + list(r.pc) + [z3.Not(z3.Or(good + refused)) if (good or refused) else z3.BoolVal(True)], info=got, keep_smt=True)
+    if unknown:
+        out.inconclusive.append("fn=build_debug_expr[chain] reason=%s" % unknown)
+    if len(obl.samples) < 2 and res:
+        obl.samples.append({"function": "build_debug_expr", "obligation": "path_condition AND NOT(configuration is one whose documented chain equals the emitted tokens) is UNSAT",
+                            "example_reference": reference(2, True, (False, False), (True, False))})
+    # confirmation of failing configurations: behaviour of the real expansion against a std-derived twin, alternate specs included
+    seen = set()
+    for label, m, got in obl.failed:
+        k = m.eval(n, model_completion=True).as_long()
+        nm = z3.is_true(m.eval(named, model_completion=True))
+        trs = tuple(z3.is_true(m.eval(tr[i], model_completion=True)) for i in range(k))
+        igs = tuple(z3.is_true(m.eval(ig[i], model_completion=True)) for i in range(k))
+        key = (k, nm, trs, igs)
+        if key in seen or len(seen) >= 4:
+            continue
+        seen.add(key)
+        from . import c10, kani_runner, common
+        shape = ("named%d" % k if nm else "tuple%d" % k) if k else ("empty-braces" if nm else "empty-parens")
+        if shape not in c10.SHAPES:
+            out.inconclusive.append("fn=build_debug_expr[chain] reason=emits `%s` for %s; no native shape to confirm with" % (got[:120], key))
+            continue
+        ign = tuple((0, i) for i in range(k) if igs[i])
+        t1 = [(0, i) for i in range(k) if trs[i]]
+        progs = [c10.build("c%02d%d" % (len(seen), j), shape, ign, t1[0] if t1 else None, sp, "attr", False, False, "Debug") for j, sp in enumerate(["{:#?}", "{:?}", "{:#x?}", "{:08.2?}"])]
+        before = len(out.violations)
+        kani_runner.run_native("C10", progs, 60, common.seed(), out)
+        if len(out.violations) == before:
+            ref = reference(*key)
+            out.inconclusive.append("fn=build_debug_expr[chain] reason=for %s fields (named=%s, transparent=%s, ignored=%s) the macro emits `%s`, the documented chain is `%s`; "
+                                    "no behavioural difference from the std-derived twin on sampled payloads" % (k, nm, trs, igs, got[:160], (ref or "")[:160]))
+    obl.failed = []
+    return obl
+
+
+class _Everything(set):
+    def __contains__(self, x):
+        return True
+
+
 def c01_selection(out):
     """the comparator source used by build_{partial_eq,partial_ord,ord,hash}_expr is the first present one of the documented precedence list; is_reverse table"""
     eng = engine()
